@@ -100,6 +100,12 @@ impl SemanticState {
     }
 
     pub fn add_module(&mut self, module: &grammar::Module, path: &ItemPath) -> anyhow::Result<()> {
+        // A second source for a module would replace what the first one imports, declares
+        // as extern values and contributes to the output, and keep its types.
+        anyhow::ensure!(
+            !self.modules.contains_key(path),
+            "the module `{path}` is defined more than once"
+        );
         let extern_values = module
             .extern_values
             .iter()
